@@ -2,6 +2,7 @@ import AslModel.Date
 import AslProofs.Date
 import AslProofs.DateParse
 import AslProofs.DateFmt
+import AslProofs.DateDbl
 /-!
 # C19 — Date converts between epoch seconds and UTC calendar fields as a bijection
 
@@ -373,5 +374,48 @@ theorem zone_offset_hour (y m d h mi s hh : Nat) (plus : Bool) (hy : y ≤ 9999)
 example : parse (zoneColonList 2021 11 29 23 31 10 true 1 30) = some (some 1638223270000) := by decide
 example : zoneColonList 2021 11 29 23 31 10 true 1 30 =
     [50, 48, 50, 49, 45, 49, 49, 45, 50, 57, 84, 50, 51, 58, 51, 49, 58, 49, 48, 43, 48, 49, 58, 51, 48] := by decide
+
+/-! ## the stored `double`
+
+`Date(ms / 1000.0)` holds the binary64 quotient, modelled exactly as the dyadic rational `n / 2^k` (`toDouble ms =
+(n, k)`, integer arithmetic only; the harness prints the real double in the same lowest-terms form, op `dbl`).  For every
+whole-millisecond instant the stored double is within half a unit `2^-k ≤ 2^-15 s` of `ms / 1000`, has a 53-bit
+significand in years 1..9999, and the library's `floor(t * 1000 + 0.5)` evaluated *exactly* on it gives `ms` back: the
+double storage loses nothing of an instant given to the millisecond, and every observable through it is the one of the
+integer model. -/
+
+/-- the stored double is a nearest one: `|n / 2^k - ms / 1000| ≤ 2^-(k+1)` (written `|1000 n - ms 2^k| ≤ 500`), with a
+unit `2^-k ≤ 2^-15 s` -/
+theorem stored_double_is_nearest (ms : Int) :
+    1000 * (toDouble ms).1 - ms * 2 ^ (toDouble ms).2 ≤ 500 ∧ ms * 2 ^ (toDouble ms).2 - 1000 * (toDouble ms).1 ≤ 500 ∧
+    15 ≤ (toDouble ms).2 := AslProofs.DateDbl.toDouble_close ms
+
+/-- ... and a binary64 value: the significand fits 53 bits whenever `|t| < 2^38 s` (all of years 1..9999) -/
+theorem stored_double_53bit (ms : Int) (h0 : t0 ≤ ms) (h1 : ms ≤ tMax) : (toDouble ms).1.natAbs ≤ 2 ^ 53 := by
+  have := AslProofs.DateDbl.toDouble_53bit ms (by unfold t0 tMax at *; omega)
+  simpa using this
+
+/-- ANY dyadic `n / 2^k` strictly within half a millisecond of `ms / 1000` (in particular any double within `2^-16 s`) is
+shown as `ms` by `floor(t * 1000 + 0.5)` -/
+theorem roundMs_of_any_close_double (d : Int × Nat) (ms : Int)
+    (hl : -(2 ^ d.2 : Int) ≤ 2 * (1000 * d.1 - ms * 2 ^ d.2)) (hu : 2 * (1000 * d.1 - ms * 2 ^ d.2) < (2 ^ d.2 : Int)) :
+    roundMsD d = ms := AslProofs.DateDbl.roundMsD_of_close d ms hl hu
+
+/-- every whole-millisecond instant survives the double storage exactly, and so do all its observables -/
+theorem stored_double_shows_ms (ms : Int) (k : Fmt) :
+    roundMsD (toDouble ms) = ms ∧ calcD ms = calcF ms ∧ toUTCStringD k ms = toUTCString k ms := by
+  have h := AslProofs.DateDbl.stored_double_shows_ms ms
+  exact ⟨h, by unfold calcD; rw [h], by unfold toUTCStringD; rw [h]⟩
+
+/-- FULL format and parse through the stored double: the same millisecond -/
+theorem format_parse_stored_double (ms : Int) (h0 : t0 ≤ ms) (h1 : ms ≤ tMax) :
+    parse (toUTCStringD .full ms) = some (some ms) := by
+  rw [(stored_double_shows_ms ms .full).2.2]; exact format_parse_millis ms h0 h1
+
+example : toDouble 253402300799999 = (8303486592614367, 15) ∧ toDouble 1 = (4611686018427388, 62) := by decide
+example : t0 ≤ 951868799123 ∧ (951868799123 : Int) ≤ tMax := by decide
+example : roundMsD (8303486592614367, 15) = 253402300799999 := by decide
+example : -(2 ^ 15 : Int) ≤ 2 * (1000 * 8303486592614367 - 253402300799999 * 2 ^ 15) ∧
+    2 * (1000 * 8303486592614367 - 253402300799999 * 2 ^ 15) < (2 ^ 15 : Int) := by decide
 
 end C19
